@@ -91,8 +91,15 @@ enum Real<C: PixelColor> {
 fn history<C: Col + ColorMapping>(ctx: &mut Ctx, rng: &mut Rng, palette: &[C]) {
     let flags = (rng.chance(1, 2), rng.chance(1, 2));
     let mut d = MockDisplay::<C>::new();
-    d.set_allow_overdraw(flags.0);
-    d.set_allow_out_of_bounds_drawing(flags.1);
+    // a fresh display has both checks enabled (documented default): half of the histories with both
+    // checks on rely on that default instead of calling the setters
+    let use_defaults = flags == (false, false) && rng.chance(1, 2);
+    if !use_defaults {
+        d.set_allow_overdraw(flags.0);
+        d.set_allow_out_of_bounds_drawing(flags.1);
+    } else {
+        ctx.count("histories_relying_on_default_flags", 1);
+    }
     let mut m = Model::default();
     // operations concentrate on a small hot area so that repeated points are frequent
     // (placed so that the first and the last rows/columns of the display are reached as well)
